@@ -23,6 +23,8 @@ class BootError(Exception):
 
 
 class VMachine:
+    _stopped = 0
+
     def __init__(self, config_yaml, modes=None, shows=None, game=False, platform="virtual", extra_files=None,
                  mock_data=None, use_bcp=False):
         util.ensure_repo_mpf()
@@ -188,6 +190,15 @@ class VMachine:
         finally:
             shutil.rmtree(self.dir, ignore_errors=True)
             self.tc = None
+            # mpf keeps every machine ever booted in a process alive through two class-level caches (mpfleak.py):
+            # empty them now and then, or a thorough run grows by about 0.8 MB per booted machine
+            VMachine._stopped += 1
+            if VMachine._stopped % 100 == 0:
+                try:
+                    from harness.common import mpfleak
+                    mpfleak.release()
+                except Exception:
+                    pass
             self.machine = None
 
     def __enter__(self):
